@@ -120,7 +120,8 @@ type Challenge struct {
 // The following checks are performed:
 //   - The metadataURL must use HTTPS or be a local address.
 //   - The resource field of the resulting metadata must match the resourceURL.
-//   - The authorization_servers field of the resulting metadata is checked for dangerous URL schemes.
+//   - The authorization_servers field and the other URL fields of the resulting metadata are checked for
+//     dangerous URL schemes.
 func GetProtectedResourceMetadata(ctx context.Context, metadataURL, resourceURL string, c *http.Client) (_ *ProtectedResourceMetadata, err error) {
 	defer util.Wrapf(&err, "GetProtectedResourceMetadata(%q)", metadataURL)
 	// Only allow HTTP for local addresses (testing or development purposes).
@@ -134,6 +135,20 @@ func GetProtectedResourceMetadata(ctx context.Context, metadataURL, resourceURL 
 	// Validate the Resource field (see RFC 9728, section 3.3).
 	if prm.Resource != resourceURL {
 		return nil, fmt.Errorf("got metadata resource %q, want %q", prm.Resource, resourceURL)
+	}
+	// Validate the other URL fields to prevent XSS attacks (see #526).
+	for _, u := range []struct {
+		name  string
+		value string
+	}{
+		{"jwks_uri", prm.JWKSURI},
+		{"resource_documentation", prm.ResourceDocumentation},
+		{"resource_policy_uri", prm.ResourcePolicyURI},
+		{"resource_tos_uri", prm.ResourceTOSURI},
+	} {
+		if err := checkURLScheme(u.value); err != nil {
+			return nil, fmt.Errorf("%s: %v", u.name, err)
+		}
 	}
 	// Validate the authorization server URLs to prevent XSS attacks (see #526).
 	for i, u := range prm.AuthorizationServers {
